@@ -1,7 +1,7 @@
 (* C13 — property theorems only: each closed by [exact] and followed by Print Assumptions. *)
 From Coq Require Import List ZArith Bool.
 From AV Require Import Model.C13_Num Model.C13_Decimal Model.C13_Cast Model.C13_Text.
-From AV Require Import Proofs.C13_Col Proofs.C13_Pow Proofs.C13_Rescale Proofs.C13_Int Proofs.C13_TextInt Proofs.C13_TextDec Proofs.C13_TextDecM.
+From AV Require Import Proofs.C13_Col Proofs.C13_Pow Proofs.C13_Rescale Proofs.C13_Int Proofs.C13_TextInt Proofs.C13_TextDec Proofs.C13_TextDecM Proofs.C13_DecInt.
 Import ListNotations.
 Local Open Scope Z_scope.
 
@@ -106,6 +106,34 @@ Theorem lossless_inverse_decimal : forall s1 p1 s2 p2 x y, s1 <= s2 -> Z.abs x <
   dec_dec_spec s1 p2 s2 x = Some y -> dec_dec_spec s2 p1 s1 y = Some x.
 Proof. exact decimal_upscale_inverse. Qed.
 Print Assumptions lossless_inverse_decimal.
+
+(* lossless inverse, decimals, at the level of the modelled kernels: a value that survives the
+   upscale (w1,p1,s1) -> (w2,p2,s2) is returned by the cast back, whatever arms (checked, fast path,
+   different native widths) the two directions take *)
+Theorem lossless_inverse_decimal_kernels : forall w1 p1 s1 w2 p2 s2 x y,
+  In w1 [32; 64; 128; 256] -> In w2 [32; 64; 128; 256] ->
+  dec_type_ok w1 p1 s1 = true -> dec_type_ok w2 p2 s2 = true ->
+  s1 <= s2 -> s2 - s1 <= 127 -> p1 + (s2 - s1) <= 127 -> s2 - s1 <= dec_maxp w2 ->
+  Z.abs x < 10 ^ p1 ->
+  kernel_value (dec_dec_kernel w1 p1 s1 w2 p2 s2) x = Some (Some y) ->
+  kernel_value (dec_dec_kernel w2 p2 s2 w1 p1 s1) y = Some (Some x).
+Proof. exact decimal_kernel_inverse. Qed.
+Print Assumptions lossless_inverse_decimal_kernels.
+
+(* integer -> decimal with a non-negative scale: v * 10^s when it has at most p digits, else null / error *)
+Theorem int_decimal_exact : forall bits sg w p s v, In w [32; 64; 128; 256] ->
+  1 <= p <= dec_maxp w -> 0 <= s <= dec_maxp w ->
+  kernel_value (int_dec_kernel bits sg w p s) v
+  = Some (let r := v * 10 ^ s in if Z.abs r <? 10 ^ p then Some r else None).
+Proof. exact int_decimal_exact_explicit. Qed.
+Print Assumptions int_decimal_exact.
+
+(* decimal -> integer with a non-negative scale: division by 10^s truncated toward zero, kept iff
+   it lies in the target integer range *)
+Theorem decimal_int_exact : forall w s obits osg v, In w [32; 64; 128; 256] -> 0 <= s <= dec_maxp w ->
+  kernel_value (dec_int_kernel w s obits osg) v = Some (num_cast obits osg (Z.quot v (10 ^ s))).
+Proof. exact C13_DecInt.decimal_int_exact. Qed.
+Print Assumptions decimal_int_exact.
 
 (* timestamp / duration unit changes: to a finer unit the result is the exact product, to a coarser
    unit the exact quotient truncated toward zero *)
